@@ -32,7 +32,7 @@ def _apps(e, acc, seen):
     if z3.is_app(e):
         d = e.decl()
         if d.kind() == z3.Z3_OP_UNINTERPRETED and d.name() in TRANSC and e.num_args() > 0:
-            acc.setdefault(d.name(), {})[e.get_id()] = e
+            acc.setdefault(d.name()[3:], {})[e.get_id()] = e
         for c in e.children():
             _apps(c, acc, seen)
     elif z3.is_quantifier(e):
